@@ -47,6 +47,11 @@ pub enum Limit {
     /// surrogate pair '😀') behind a one-letter prefix: the limit counts
     /// UTF-16 units of the packed name, not bytes and not characters
     StreamNameWide(usize, u8),
+    /// the pool is filled to 65,535 entries through the API, `free` entries
+    /// are freed by a deletion, then one UPDATE assigns two strings new to the
+    /// pool to a row whose old strings another row holds as well (so the
+    /// update itself gives nothing back)
+    UpdateAfterDelete(u32),
 }
 
 #[derive(Clone, Copy, Debug, PartialEq)]
@@ -180,6 +185,22 @@ fn approach(l: &Limit) -> Result<(Package<SharedBuf>, SharedBuf, Snapshot, std::
             let before = snap(&mut pkg)?;
             let r = pkg.insert_rows(Insert::into("S").rows((0..*add).map(|i| vec![Value::Str(format!("new{i:05}"))]).collect()));
             Ok((pkg, buf, before, r, if pre - freed + add <= 65535 { Expect::MustOk } else { Expect::MustErr }))
+        }
+        Limit::UpdateAfterDelete(free) => {
+            let buf = SharedBuf::new(file_with_pool(65_000)?);
+            let mut pkg = Package::open(buf.clone()).map_err(|e| Fail::new(format!("{P} unreadable-file"), format!("a file with 65,000 pool entries does not open: {e}")))?;
+            pkg.create_table("U", vec![Column::build("k").primary_key().int16(), Column::build("a").string(0), Column::build("b").string(0)]).map_err(|e| err("create_table", e))?;
+            pkg.insert_rows(Insert::into("U").row(vec![Value::Int(1), Value::from("shared-a"), Value::from("shared-b")]).row(vec![Value::Int(2), Value::from("shared-a"), Value::from("shared-b")])).map_err(|e| err("insert", e))?;
+            pkg.flush().map_err(|e| err("flush", e))?;
+            let entries = fmt::decode(&buf.bytes()).map_err(|e| Fail::new(format!("{P} harness-decoder"), e))?.pool.entries.len() as u32;
+            let filler = 65_535u32.saturating_sub(entries);
+            pkg.insert_rows(Insert::into("S").rows((0..filler).map(|i| vec![Value::Str(format!("fill{i:06}"))]).collect())).map_err(|e| err("insert filler", e))?;
+            if *free > 0 {
+                pkg.delete_rows(Delete::from("S").with(Expr::col("k").lt(Expr::string(format!("fill{:06}", free))).and(Expr::col("k").ge(Expr::string("fill"))))).map_err(|e| err("delete", e))?;
+            }
+            let before = snap(&mut pkg)?;
+            let r = pkg.update_rows(msi::Update::table("U").set("a", Value::from("new-a")).set("b", Value::from("new-b")).with(Expr::col("k").eq(Expr::integer(1))));
+            Ok((pkg, buf, before, r, if *free >= 2 { Expect::MustOk } else { Expect::MustErr }))
         }
         Limit::StringsAfterDeleteAll(how, add) => {
             let buf = SharedBuf::new(file_with_pool(65_535)?);
@@ -345,6 +366,7 @@ fn cases(thorough: bool) -> Vec<Limit> {
         Limit::ValidationRowsFull(2, 2), Limit::ValidationRowsFull(1, 2), Limit::ValidationRowsFull(0, 1), Limit::ValidationRowsFull(3, 5),
         Limit::StringsAfterDelete(65535, 3, 3), Limit::StringsAfterDelete(65535, 3, 4), Limit::StringsAfterDelete(65535, 1, 1),
         Limit::StringsAfterDeleteAll(0, 1000), Limit::StringsAfterDeleteAll(1, 1000),
+        Limit::UpdateAfterDelete(0), Limit::UpdateAfterDelete(1), Limit::UpdateAfterDelete(2), Limit::UpdateAfterDelete(3),
         Limit::StringsAfterDeleteReopen(65535, 3, 3), Limit::StringsAfterDeleteReopen(65535, 3, 4), Limit::StringsAfterDeleteReopen(65535, 1, 1),
     ];
     for n in [30usize, 31, 32, 33, 59, 60, 61, 64, 65] {
@@ -381,7 +403,7 @@ fn cases(thorough: bool) -> Vec<Limit> {
 pub fn run(ctx: &Ctx) -> Report {
     let mut rep = Report::new(
         "exploration",
-        "directed generators per limit L producing L-1, L and L+1, in one batch and incrementally, across reopen, and after deletions freed capacity: columns (31/32/33/34), rows (65,535/65,536/65,537), distinct strings under 2-byte references (65,534/65,535/65,536, the expensive states written by the independent encoder, the new strings arriving through insert or through create_table), table names (30..65 characters), column names (31..100), stream names (60..64 packable characters; 30..33 mixed). Oracle: beyond the limit Err, at or below Ok (where the property gives the number); never a panic; after Err the API snapshot is unchanged; in every case the package stays readable, the file saved afterwards is opened by the library itself and equals what was observable. Non-trivial = a case at L or L+1; distinct by case.",
+        "directed generators per limit L producing L-1, L and L+1, in one batch and incrementally, across reopen, and after deletions freed capacity (also an UPDATE that needs two new pool entries when 0 / 1 / 2 / 3 were freed): columns (31/32/33/34), rows (65,535/65,536/65,537), distinct strings under 2-byte references (65,534/65,535/65,536, the expensive states written by the independent encoder, the new strings arriving through insert or through create_table), table names (30..65 characters), column names (31..100), stream names (60..64 packable characters; 30..33 mixed). Oracle: beyond the limit Err, at or below Ok (where the property gives the number); never a panic; after Err the API snapshot is unchanged; in every case the package stays readable, the file saved afterwards is opened by the library itself and equals what was observable. Non-trivial = a case at L or L+1; distinct by case.",
     );
     let mut st = Stats::new();
     let list = cases(ctx.tier == crate::engine::Tier::Thorough);
